@@ -56,6 +56,14 @@ def replay(model, obligation):
     ctx = d2.get_context()
     if len(ids) != len(set(ids)) or sorted(ids) != sorted(ctx) or 'PK' not in [getattr(v, 'value', v) for v in ctx.values()]:
         fails.append('DELETE with a two-key map delete and a WHERE: %s binds %r' % (str(d2), ctx))
+    # renumbering for a batch: every clause of the statement - delete fields included - moves to the requested range
+    d3 = st.DeleteStatement('t')
+    d3.add_field(st.MapDeleteClause('m', {}, {'a': 1}))
+    d3._add_where_clause(st.WhereClause('pk', ops.EqualsOperator(), 'PK'))
+    d3.update_context_id(5)
+    ids = PH.findall(str(d3))
+    if sorted(ids) != sorted(d3.get_context()) or sorted(int(i) for i in ids) != list(range(5, 5 + len(ids))):
+        fails.append('DELETE renumbered to start at 5 renders %s and binds %r' % (str(d3), d3.get_context()))
     for cls, args in ((st.ListUpdateClause, ('l', [0, 1, 2, 3], None, [1, 2])), (st.MapUpdateClause, ('m', {'a': 1, 'b': 2}, None, {'a': 9}))):
         c = cls(*args)
         c.set_context_id(4)
